@@ -123,11 +123,15 @@ fn dec_ade(text: &str) -> Result<BTreeMap<String, (BTreeSet<u32>, BTreeSet<u32>,
     Ok(m)
 }
 
-fn dec_cobertura(xml: &str) -> Result<BTreeMap<String, (CovResult, BTreeSet<String>)>, String> {
+/// per file: the class-level lines/branches, and per method name its (line -> hits) rows
+type CobFile = (CovResult, BTreeMap<String, BTreeMap<u32, u64>>);
+
+fn dec_cobertura(xml: &str) -> Result<BTreeMap<String, CobFile>, String> {
     let mut rd = quick_xml::Reader::from_str(xml);
-    let mut m: BTreeMap<String, (CovResult, BTreeSet<String>)> = BTreeMap::new();
+    let mut m: BTreeMap<String, CobFile> = BTreeMap::new();
     let mut cur: Option<String> = None;
     let mut in_method = false;
+    let mut cur_method = String::new();
     let mut cur_line: Option<u32> = None;
     let attr = |e: &quick_xml::events::BytesStart, k: &str| -> Option<String> {
         e.attributes().flatten().find(|a| a.key.as_ref() == k.as_bytes()).map(|a| a.unescape_value().unwrap().to_string())
@@ -147,8 +151,19 @@ fn dec_cobertura(xml: &str) -> Result<BTreeMap<String, (CovResult, BTreeSet<Stri
                     }
                     b"method" => {
                         in_method = true;
+                        cur_method = attr(&e, "name").unwrap_or_default();
                         if let Some(f) = &cur {
-                            m.get_mut(f).unwrap().1.insert(attr(&e, "name").unwrap_or_default());
+                            if m.get_mut(f).unwrap().1.insert(cur_method.clone(), BTreeMap::new()).is_some() {
+                                return Err(format!("method {} listed twice", cur_method));
+                            }
+                        }
+                    }
+                    b"line" if in_method => {
+                        let n: u32 = attr(&e, "number").ok_or("line without number")?.parse().map_err(|_| "bad number")?;
+                        let h: u64 = attr(&e, "hits").ok_or("line without hits")?.parse().map_err(|_| "bad hits")?;
+                        let f = cur.as_ref().ok_or("line outside class")?;
+                        if m.get_mut(f).unwrap().1.get_mut(&cur_method).unwrap().insert(n, h).is_some() {
+                            return Err(format!("line {} listed twice in method {}", n, cur_method));
                         }
                     }
                     b"line" if !in_method => {
@@ -386,7 +401,7 @@ pub fn run(rep: &mut Report) {
                         let missed: BTreeSet<u32> = c.lines.iter().filter(|(_, v)| **v == 0).map(|(k, _)| *k).collect();
                         let covered: BTreeSet<u32> = c.lines.iter().filter(|(_, v)| **v > 0).map(|(k, _)| *k).collect();
                         let want_ct = format!("{} / {}", covered.len(), c.lines.len());
-                        let mut ok = row.len() == 4 && row[0] == rel.to_str().unwrap() && row[2] == want_ct;
+                        let mut ok = row.len() == 4 && row[0] == rel.to_str().unwrap().trim() && row[2] == want_ct; // table cells are padded: outer blanks of a name are not recoverable from this format
                         let mut in_ranges: BTreeSet<u32> = BTreeSet::new();
                         if ok {
                             for r in row[3].split(", ").filter(|r| !r.is_empty()) {
@@ -419,10 +434,28 @@ pub fn run(rep: &mut Report) {
                 Err(e) => fail(rep, fmt, None, &format!("cannot decode: {}", e), &rs, json!(null)),
                 Ok(m) => {
                     let names_ok = rs.iter().all(|(_, rel, c)| {
-                        m.get(rel.to_str().unwrap()).map(|x| x.1 == c.functions.keys().cloned().collect::<BTreeSet<String>>()).unwrap_or(false)
+                        m.get(rel.to_str().unwrap()).map(|x| x.1.keys().cloned().collect::<BTreeSet<String>>() == c.functions.keys().cloned().collect::<BTreeSet<String>>()).unwrap_or(false)
                     });
                     if !names_ok {
                         fail(rep, fmt, None, "method names differ from the function names", &rs, json!(null));
+                    }
+                    // a method lists the file's lines from its start line up to the next function start
+                    for (_, rel, c) in rs.iter() {
+                        let Some(x) = m.get(rel.to_str().unwrap()) else { continue };
+                        for (name, f) in &c.functions {
+                            let next = c.functions.values().map(|g| g.start).filter(|s| *s > f.start).min();
+                            let want: BTreeMap<u32, u64> = c.lines.iter().filter(|(l, _)| **l >= f.start && next.map(|n| **l < n).unwrap_or(true)).map(|(l, h)| (*l, *h)).collect();
+                            rep.count(if want.is_empty() { "cobertura.method_without_lines" } else { "cobertura.method_with_lines" });
+                            if c.functions.values().filter(|g| g.start == f.start).count() > 1 {
+                                rep.count("cobertura.method_sharing_its_start_line");
+                            }
+                            if let Some(got) = x.1.get(name) {
+                                if *got != want {
+                                    fail(rep, fmt, None, &format!("method {:?} does not list the lines (with their hits) from its start line to the next function start: {:?} instead of {:?}", name, got, want), &rs, json!({"file": rel, "method": name}));
+                                    break;
+                                }
+                            }
+                        }
                     }
                     let g: BTreeMap<String, CovResult> = m.into_iter().map(|(k, v)| (k, v.0)).collect();
                     cmp(rep, fmt, &rs, Ok(g), want_map(&rs, true, true, false));
